@@ -114,7 +114,7 @@ def exercise(state, evt, role, artim_pre, var):
         except BaseException as e:     # noqa - includes simnet.Hang
             exc = e
         return {
-            'exc': exc, 'state': sm.current_state + 1,
+            'exc': exc, 'state': sm.current_state + 1 if isinstance(sm.current_state, int) else 'invalid(%r)' % (sm.current_state,),
             'wire': b''.join(e[1] for e in sim.log if e[0] == 'send'),
             'inds': [e[1] for e in sim.log if e[0] == 'ind'],
             'closed': ('close',) in sim.log,
@@ -144,7 +144,7 @@ def judge(state, evt, role, artim_pre, var, obs):
         if obs['artim'] != artim_pre or (artim_pre and obs['artim_start'] != simnet.Sim.START_TIME):
             bad('timer', 'undefined cell changed the ARTIM timer')
         if obs['state'] != state:
-            bad('state', 'undefined cell moved to Sta%d' % obs['state'])
+            bad('state', 'undefined cell moved to Sta%s' % obs['state'])
         return
     action, nxt = ent
     a = ulmodel.ACTIONS[action]
@@ -227,7 +227,7 @@ def judge(state, evt, role, artim_pre, var, obs):
         if obs['artim'] != artim_pre or (artim_pre and obs['artim_start'] != simnet.Sim.START_TIME):
             bad('timer', 'ARTIM changed (running %s -> %s), not prescribed' % (artim_pre, obs['artim']))
     if obs['state'] != nxt:
-        bad('next-state', 'moved to Sta%d, standard prescribes Sta%d' % (obs['state'], nxt))
+        bad('next-state', 'moved to Sta%s, standard prescribes Sta%d' % (obs['state'], nxt))
 
 
 def one(ctx, state, evt, role, artim_pre, var, label):
